@@ -19,8 +19,10 @@ let raw_of = function
   | ["F"; b] -> AtvalM.RFlag (b = "1")
   | ["A"; n] -> AtvalM.RAddr (z_of_string n)
   | ["O"; n] -> AtvalM.RSecOff (z_of_string n)
-  | ["B"; h] -> AtvalM.RBlock (bytes_of_hex h)
-  | ["B"] -> AtvalM.RBlock []
+  | ["B"; h] -> AtvalM.RBlock (false, bytes_of_hex h)
+  | ["B"] -> AtvalM.RBlock (false, [])
+  | ["BB"; h] -> AtvalM.RBlock (true, bytes_of_hex h)        (* a block in a big-endian file *)
+  | ["BB"] -> AtvalM.RBlock (true, [])
   | ["E"] -> AtvalM.RExprloc
   | _ -> AtvalM.ROther
 
